@@ -400,6 +400,7 @@ func cmdCheck(args []string) int {
 		idx int
 	}
 	var vrefs []vref
+	var noWitness [][3]string // harness, kind, label of symbolic violations without a replayable model
 	type pref struct {
 		p   *sym.PathResult
 		h   Harness
@@ -432,7 +433,9 @@ func cmdCheck(args []string) int {
 				}
 				w, ok := modelWitness(r.h.Name, v.Inputs, v.Model)
 				if !ok {
-					inconclusive = append(inconclusive, fmt.Sprintf("%s: %s %q: non-integral relaxation model", r.h.Name, v.Kind, v.Label))
+					// the real relaxation has a counterexample but no lattice witness was
+					// found: a hand-written seed that fails natively can still confirm it
+					noWitness = append(noWitness, [3]string{r.h.Name, v.Kind, v.Label})
 					continue
 				}
 				w.Expect, w.Label, w.Trace, w.Property, w.Pkg, w.Kind = v.Kind, v.Label, decs(v.Trace), prop, r.h.Pkg, r.h.Kind
@@ -503,6 +506,9 @@ func cmdCheck(args []string) int {
 	symViol := map[string]bool{} // harness|kind with a symbolic violation
 	for _, vr := range vrefs {
 		symViol[vr.h.Name+"|"+vr.v.Kind] = true
+	}
+	for _, nw := range noWitness {
+		symViol[nw[0]+"|"+nw[1]] = true
 	}
 	seedFail := map[string]int{} // harness|kind -> witness index of a natively failing seed
 	validated, disagreements, seedsOK := 0, 0, 0
@@ -666,6 +672,38 @@ func cmdCheck(args []string) int {
 		fmt.Printf("  harness=%s kind=%s label=%q native=%s %q inputs=%v\n", vr.h.Name, vr.v.Kind, vr.v.Label, o.Outcome, o.Msg, w.Inputs)
 		violSamples = append(violSamples, w)
 		exit = 1
+	}
+
+	// symbolic violations whose model could not be turned into a witness: confirmed by a failing seed, or inconclusive
+	for _, nw := range noWitness {
+		si, ok := seedFail[nw[0]+"|"+nw[1]]
+		var h Harness
+		for _, r := range runs {
+			if r.h.Name == nw[0] {
+				h = r.h
+			}
+		}
+		if ok && (nw[1] != "assert" || outs[h.Pkg][si].Msg == nw[2]) && h.Kind != "lemma" {
+			key := nw[0] + "|" + nw[1] + "|" + nw[2]
+			nViol++
+			if reported[key] {
+				continue
+			}
+			reported[key] = true
+			w := perPkg[h.Pkg][si]
+			w.Expect, w.Label, w.Property, w.Pkg = nw[1], nw[2], prop, h.Pkg
+			name := fmt.Sprintf("%s-%s-%d.json", nw[0], nw[1], len(reported))
+			path := filepath.Join(*verif, "replays", prop, name)
+			wj, _ := json.MarshalIndent(w, "", " ")
+			os.WriteFile(path, wj, 0o644)
+			o := outs[h.Pkg][si]
+			fmt.Printf("VIOLATION property=%s replay=%s\n", prop, path)
+			fmt.Printf("  harness=%s kind=%s label=%q native=%s %q inputs=%v (seed input; the solver's counterexample had no lattice witness)\n", nw[0], nw[1], nw[2], o.Outcome, o.Msg, w.Inputs)
+			violSamples = append(violSamples, w)
+			exit = 1
+			continue
+		}
+		inconclusive = append(inconclusive, fmt.Sprintf("%s: %s %q: non-integral relaxation model", nw[0], nw[1], nw[2]))
 	}
 
 	// ---- vacuity
